@@ -235,9 +235,15 @@ var specs = []mechSpec{
 	{"authenticator", "jwt_md", []map[string]any{{"assertions": map[string]any{"issuers": []any{"iss2"}}}, {"assertions": map[string]any{"audience": []any{"svc-x"}}}, {"cache_ttl": "7s"}}},
 	{"authorizer", "allow", nil},
 	{"authorizer", "deny", nil},
-	{"authorizer", "cel", []map[string]any{{"expressions": []any{map[string]any{"expression": "Subject.ID == 'nobody'"}}}}},
+	{"authorizer", "cel", []map[string]any{{"expressions": []any{map[string]any{"expression": "Subject.ID == 'nobody'"}}},
+		// the same (failing) expression with different messages, and at another position of the list: the message is part of what a rule observes
+		{"expressions": []any{map[string]any{"expression": "Subject.ID == 'nobody'", "message": "only nobody may pass"}}},
+		{"expressions": []any{map[string]any{"expression": "Subject.ID == 'nobody'", "message": "tenant policy 7"}}},
+		{"expressions": []any{map[string]any{"expression": "Subject.ID != 'x'"}, map[string]any{"expression": "Subject.ID == 'nobody'"}}}}},
 	{"authorizer", "remote", []map[string]any{
 		{"payload": "other-{{ .Subject.ID }}"}, {"expressions": []any{map[string]any{"expression": "Payload.allow == true"}}},
+		{"expressions": []any{map[string]any{"expression": "Payload.allow == 'never'", "message": "policy A"}}},
+		{"expressions": []any{map[string]any{"expression": "Payload.allow == 'never'", "message": "policy B"}}},
 		{"forward_response_headers_to_upstream": []any{"X-Other"}}, {"cache_ttl": "9s"}, {"values": map[string]any{"a": "uno"}}, {"values": map[string]any{"c": "three"}}}},
 	{"contextualizer", "ctx", []map[string]any{
 		{"forward_headers": []any{"X-Fwd2"}}, {"payload": "p-{{ .Subject.ID }}"}, {"cache_ttl": "9s"}, {"continue_pipeline_on_error": true},
@@ -480,7 +486,8 @@ func signature1(n *simnet.Net, in *inst, hdrs map[string]string, cch cache.Cache
 				kind = name
 			}
 		}
-		fmt.Fprintf(&b, "err=%s;", kind)
+		// the text of the error is what a verbose answer and the log show (e.g. the message configured for a failed expression)
+		fmt.Fprintf(&b, "err=%s(%s);", kind, normaliseTimes(err.Error()))
 	}
 	for _, c := range n.Calls("")[before:] {
 		if !withCalls {
